@@ -5,7 +5,7 @@ import re
 from . import lib_c19 as Q
 from .engine import comparison_of, normalise_le
 from .core import AnchorLost as core_AnchorLost
-from .lib import callers, root_fn
+from .lib import PLUMBING, callee_allow, callers, root_fn
 
 LEVEL = "other"
 TECHNIQUE = ("static analysis: symbolic evaluation of the proc-macro's quote! emission (token template with every interpolation hole labelled by its origin), "
@@ -1221,10 +1221,12 @@ def r7_versions(ctx):
             if oks and errs:
                 chk[fld] = True
     ctx.check(R, "literal:no-prerelease-or-build", all(chk.values()), "parse_semver refuses literals whose pre-release / build metadata is not EMPTY: %s" % chk, ps)
-    sv = ctx.need_fn(ep, R, r"^<metadata::VersionSpecifier as syn::parse::Parse>::parse$")
+    # normalised view: `parse_semver(&s).map(VersionSpecifier::Literal)` is `match parse_semver(&s) { Ok(v) => Ok(Literal(v)), .. }`
+    sv = ctx.need_fn(ctx.epn, R, r"^<metadata::VersionSpecifier as syn::parse::Parse>::parse$")
     lits = [bb for bb, i, s in sv.aggregates(r"^metadata::VersionSpecifier$", "Literal")]
-    frs = Q.Frame(sv)
-    okl = bool(lits) and all(any(re.search(r"^metadata::parse_semver$", c) for c in Q.callees(q0.ev_op(frs, s["rv"]["ops"][0]))) for bb, i, s in sv.aggregates(r"^metadata::VersionSpecifier$", "Literal"))
+    okl = bool(lits) and all(sv.slice(s["rv"]["ops"][0]).has_call(r"^metadata::parse_semver$") and
+                             not callee_allow(sv.slice(s["rv"]["ops"][0], stop_at_calls=r"^metadata::parse_semver$"), PLUMBING + [r"^metadata::parse_semver$", r"ops::Try::branch$"])
+                             for bb, i, s in sv.aggregates(r"^metadata::VersionSpecifier$", "Literal"))
     ctx.check(R, "literal:every-literal-goes-through-parse_semver", okl, "VersionSpecifier::Literal sites: %d, all built from parse_semver(..)?: %s" % (len(lits), okl), sv)
 
 
